@@ -98,7 +98,7 @@ def pavexc_env(home):
 
 
 WORKSPACE_TOML = """[workspace]
-members = ["app", "sdk", "driver"]
+members = ["app", "sdk", "driver", "depk"]
 exclude = ["extdep"]
 resolver = "3"
 
@@ -127,7 +127,37 @@ unused = "allow"
 pavex = { workspace = true }
 serde = { workspace = true }
 serde_json = { workspace = true }
+%(depk)s
 """
+
+# A second library crate of the slot workspace: part of a case's types and constructors may live there (see
+# gen.crateize), possibly behind a renamed dependency (`dk = { package = "depk", .. }`).
+DEPK_TOML = """[package]
+name = "depk"
+version = "0.1.0"
+edition = "2024"
+
+[lints.rust]
+unexpected_cfgs = { level = "allow" }
+dead_code = "allow"
+unused = "allow"
+
+[dependencies]
+pavex = { workspace = true }
+serde = { workspace = true }
+serde_json = { workspace = true }
+"""
+
+
+def app_toml(alias=None):
+    if alias is None:
+        dep = ""
+    elif alias == "depk":
+        dep = 'depk = { path = "../depk" }'
+    else:
+        dep = '%s = { package = "depk", path = "../depk" }' % alias
+    return APP_TOML % {"depk": dep}
+
 
 DRIVER_TOML = """[package]
 name = "driver"
